@@ -468,6 +468,9 @@ PL = [(0, 0), (3072, 4096), (3072, 4112), (3072, 4080), (-3072, 4096), (5120, 0)
 PL3 = [(0, 0, 0), (1024, 2048, 2048), (1024, 2048, 2032), (2048, 4096, 4096), (2048, 4096, 4112),
        (0, 0, 6144), (0, 0, 6160)]
 PA = [(0, 0), (3072, 4096), (-2560, 0), (0, 2560), (2560, 2560)]
+# pair positions: x = 16 * rank only fixes the enumeration order (ascending x = list order), the
+# distances are set by y: sites 2 um apart, each twin 0.5 um above its site (min distance 1 um)
+PP = [(16 * k, 2048 * k) for k in range(6)] + [(16 * (6 + k), 2048 * k + 512) for k in range(6)]
 # 12 points of a 3 um square grid (trap grid, pairwise >= 3 um, all within 6.1 um of the origin)
 PA12 = [(0, 0), (3072, 0), (0, 3072), (-3072, 0), (0, -3072), (3072, 3072), (-3072, 3072),
         (3072, -3072), (-3072, -3072), (6144, 0), (0, 6144), (-6144, 0)]
@@ -500,7 +503,7 @@ def random_points(rng, m, r, n, bound=7600):
 def geometry_configs(quick):
     base = {"Kinds": tla_set(["D", "V"]), "ConnN": "{}", "ConnSp": "{}", "MinTrapsS": "{1}",
             "MaxTrapsS": "{0}", "Fill4S": "{2}", "OptFill4S": "{0}", "TMax": "0", "FillDen": "4",
-            "Prefix": "FALSE"}
+            "Prefix": "FALSE", "NMin": "1", "TMin": "1", "AllTraps": "FALSE"}
     cfgs = []
     cfgs.append(("plain2d", P2 if not quick else P2[:12], {
         **base, "NMax": "3" if quick else "5", "Dims": "{2, 3}", "MaxAtomsS": "{0, 2, 3}",
@@ -525,6 +528,17 @@ def geometry_configs(quick):
         **base, "NMax": "2" if quick else "3", "TMax": "2" if quick else "3", "Dims": "{2, 3}",
         "MaxAtomsS": "{0, 2}", "MinDistS": "{3072}" if quick else "{0, 3072}", "MaxRadS": "{0, 6}",
         "MinTrapsS": "{1, 2}", "MaxTrapsS": "{0, 2}", "Fill4S": "{2, 4}"}))
+    # WHICH pair is reported: registers and full layouts of 4, 5 and 6 atoms / traps taken from
+    # six well separated sites P_k and their twins Q_k (half a minimum distance from P_k), listed
+    # in the order in which both the register and the sorted layout enumerate them.  The subsets
+    # with a single twin pair put the only violating pair at every position (i, j) of the
+    # condensed distance vector (6/6, 10/10, 15/15 positions), those with two pairs at most of
+    # them, so a wrong index arithmetic between pdist and the reported ids is visible.
+    for lay in (False, True):
+        cfgs.append(("pairpos-layout" if lay else "pairpos-plain", PP, {
+            **base, "Kinds": tla_set(["D"]), "Dims": "{2}", "MaxAtomsS": "{6}", "MinDistS": "{1024}",
+            "MaxRadS": "{12}", "Fill4S": "{4}", "NMin": "4", "NMax": "6", "TMin": "4",
+            "TMax": "6" if lay else "0", "AllTraps": "TRUE"}))
     # registers on the trap grid given to with_automatic_layout on physical devices with every
     # combination of trap-number limits, maximum and optimal filling
     cfgs.append(("autolayout", PA, {
@@ -644,6 +658,12 @@ def run(tier):
             absorb(name, res, recs, results, time.time() - t0)
             if kind == "ctor":
                 per[-1]["valid_combinations"] = sum(1 for r in recs if r["ok"])
+            if name.startswith("pairpos"):
+                key, grp = ("tm", "t") if "layout" in name else ("pm", "a")
+                seen = {(len(r[grp]), sorted(r[grp]).index(min(p)), sorted(r[grp]).index(max(p)))
+                        for r in recs if len(r[key]) == 1 for p in r[key]}
+                per[-1]["single_violating_pair_positions"] = {
+                    str(n): f"{sum(1 for s in seen if s[0] == n)}/{n * (n - 1) // 2}" for n in (4, 5, 6)}
 
     cov = {
         "states": states, "transitions": trans,
